@@ -737,6 +737,10 @@ func (h *c19dBMP) compareViews(s *c19dBMPState) ([]c19dViewDiff, int) {
 		key := "c19d:bmp:route-monitoring:" + view + ":" + sessCls + ":view-differs:" + strings.Join(cls, "+")
 		if h.late && view != "loc-rib" {
 			key += ":station-added-late"
+			if sessCls == "addpath-session" {
+				// one root cause (initial dump regenerated without path identifiers, decoded with them): one key
+				key = "c19d:bmp:route-monitoring:" + view + ":addpath-session:view-differs:station-added-late"
+			}
 		}
 		if loopOnly && view == "pre-policy" {
 			key = "c19d:bmp:route-monitoring:" + view + ":" + sessCls + ":view-differs:as-loop-route"
